@@ -4,8 +4,8 @@
     utils::range_excluding_trivia, kind list regenerated from the source into GenFoldKinds.v), FOR ALL TREES. *)
 From Coq Require Import List NArith Bool Sorted String.
 From TG.Gen Require Import GenTokens GenFoldKinds.
-From TG.Model Require Import Chars Tree TreeNav Folding SymbolMap Outline CoreAst OutlineIndex.
-From TG.Proofs Require Import TreeNavProofs FoldingProofs OutlineProofs OutlineIndexProofs.
+From TG.Model Require Import Chars Tree TreeNav Folding SymbolMap Outline CoreAst OutlineIndex OutlineSpec.
+From TG.Proofs Require Import TreeNavProofs FoldingProofs OutlineProofs OutlineIndexProofs OutlineSourceProofs.
 Import ListNotations.
 Open Scope N_scope.
 
@@ -192,3 +192,42 @@ Example C18_outline_slice_example :
       DocSym (s2n "M") (s2n "multiclass") 77 78 DKMulticlass [DocSym (s2n "q") (s2n "int") 83 84 DKTemplateArgument []];
       DocSym (s2n "e") (s2n "def") 92 93 DKDef [] ]).
 Proof. repeat split; vm_compute; reflexivity. Qed.
+
+(** Source level, for EVERY single-file program without include statements (any nesting of foreach / if / let / defset /
+    multiclass, any fuel-free AST): the global declarations the indexer slice registers ([ops_decls]: kind, name, range of
+    the declaring identifier of every global class / def / defset / multiclass add-op, in indexing order) form a SUBSEQUENCE
+    of the program's declarations in source preorder ([program_decls]: every class, every def named by an identifier that is
+    not lexically inside a defset, every defset, every multiclass) -- nothing foreign, nothing twice, nothing out of order. *)
+Theorem C18_outline_source_subseq : forall root perrs,
+  forallb no_include root = true ->
+  subseq (ops_decls (oix_ops (mkWs [root] perrs))) (program_decls root).
+Proof. exact outline_source_subseq. Qed.
+Check C18_outline_source_subseq : forall root perrs,
+  forallb no_include root = true ->
+  subseq (ops_decls (oix_ops (mkWs [root] perrs))) (program_decls root).
+Print Assumptions C18_outline_source_subseq.
+
+(** ... hence they are EXACTLY the program's declarations in source order whenever the counts agree (nothing was skipped:
+    no defset whose type does not resolve, no modelled panic); the check evaluates this condition on every generated program. *)
+Theorem C18_outline_source_complete : forall root perrs,
+  forallb no_include root = true ->
+  List.length (ops_decls (oix_ops (mkWs [root] perrs))) = List.length (program_decls root) ->
+  ops_decls (oix_ops (mkWs [root] perrs)) = program_decls root.
+Proof. exact outline_source_complete. Qed.
+Check C18_outline_source_complete : forall root perrs,
+  forallb no_include root = true ->
+  List.length (ops_decls (oix_ops (mkWs [root] perrs))) = List.length (program_decls root) ->
+  ops_decls (oix_ops (mkWs [root] perrs)) = program_decls root.
+Print Assumptions C18_outline_source_complete.
+
+(** Non-vacuity: the example program satisfies both hypotheses, and its four declarations are registered in source order
+    (the def `d` inside the defset and the anonymous def are not global; the def `e` inside the multiclass is). *)
+Example C18_outline_source_example :
+  match ws_files ex_ws with
+  | [root] => forallb no_include root = true /\
+              List.length (ops_decls (oix_ops ex_ws)) = List.length (program_decls root) /\
+              ops_decls (oix_ops ex_ws) =
+                [(DClass, s2n "A", 6, 7); (DDefset, s2n "S", 43, 44); (DMulticlass, s2n "M", 77, 78); (DDef, s2n "e", 92, 93)]
+  | _ => False
+  end.
+Proof. vm_compute. repeat split; reflexivity. Qed.
